@@ -135,9 +135,25 @@ func (m *ValueMap) Length() int {
 		verifYield("vm.length.slow")
 		m.mu.Lock()
 		defer m.mu.Unlock()
-		return len(m.dirty)
+		// m.dirty may have been promoted while we were blocked on m.mu.
+		read, _ = m.read.Load().(readOnlyValueMap)
+		if read.amended {
+			return countLiveEntriesValueMap(m.dirty)
+		}
 	}
-	return len(read.m)
+	return countLiveEntriesValueMap(read.m)
+}
+
+// countLiveEntriesValueMap counts the entries that still hold a value: deleted
+// (nil) and expunged entries stay in the maps until the next promotion.
+func countLiveEntriesValueMap(entries map[string]*entryValueMap) int {
+	n := 0
+	for _, e := range entries {
+		if _, ok := e.load(); ok {
+			n++
+		}
+	}
+	return n
 }
 
 func (m *ValueMap) Clear() {
